@@ -165,6 +165,22 @@ namespace
           }
         last = execute(s);
       }
+    if (d.HasMember("alone_hash") && d["alone_hash"].IsString())
+      {
+        // what the last scenario answers when it is all a process ever does is known: after a history it has to
+        // answer the same
+        char hb[32];
+        std::snprintf(hb, sizeof(hb), "%016llx", static_cast<unsigned long long>(last.hash));
+        if (std::string(hb) != d["alone_hash"].GetString())
+          {
+            Violation v;
+            v.cls = (d.HasMember("property") && d["property"].IsString() ? std::string(d["property"].GetString()) : std::string("?")) + "/process-history";
+            v.site = "responses";
+            v.detail = "after " + std::to_string(seq.Size() - 1) + " earlier scenario(s) in the same process the last scenario's responses hash to "
+                       + hb + ", alone in a fresh process to " + d["alone_hash"].GetString();
+            last.violations.push_back(v);
+          }
+      }
     std::printf("END 0 %s\n", one_line(result_to_json(last, verbose)).c_str());
     std::printf("REDO same\n");
     std::fflush(stdout);
